@@ -25,6 +25,8 @@ def cmp : Val → Bool
   | .hash es => cmpE es && distinctB (es.map fun e => kb e.1)
   | .entry k v => cmp k && cmp v
   | .typ t => TyWF t
+  | .timespan n => minInt ≤ n && n ≤ maxInt
+  | .timestamp a b => (minInt ≤ a && a ≤ maxInt) && (minInt ≤ b && b ≤ maxInt)
   | _ => true
 def cmpL : List Val → Bool
   | [] => true
@@ -71,7 +73,8 @@ variable {P : Val → Prop}
   (hhash : ∀ es : List (Val × Val), (∀ e ∈ es, P e.1 ∧ P e.2) → P (.hash es))
   (hentry : ∀ k v, P k → P v → P (.entry k v))
   (hsens : ∀ v, P v → P (.sensitive v)) (htyp : ∀ t, P (.typ t))
-include hundef hdflt hbool hint hfloat hstr hregexp hbinary harray hhash hentry hsens htyp
+  (htspan : ∀ n, P (.timespan n)) (htstamp : ∀ a b, P (.timestamp a b))
+include hundef hdflt hbool hint hfloat hstr hregexp hbinary harray hhash hentry hsens htyp htspan htstamp
 
 mutual
 theorem Val.ind : ∀ x : Val, P x
@@ -82,6 +85,8 @@ theorem Val.ind : ∀ x : Val, P x
   | .entry k v => hentry k v (Val.ind k) (Val.ind v)
   | .sensitive v => hsens v (Val.ind v)
   | .typ t => htyp t
+  | .timespan n => htspan n
+  | .timestamp a b => htstamp a b
 theorem Val.indL : ∀ vs : List Val, ∀ v ∈ vs, P v
   | [], _, h => by simp at h
   | w :: ws, v, hv => by
@@ -250,6 +255,8 @@ theorem veq_refl : ∀ x : Val, cmp x = true → veq x x = true := by
   · intro t h
     simp only [cmp] at h
     simp [veq, tyEq_refl t h]
+  · intro n _; simp [veq]
+  · intro a b _; simp [veq]
 
 /-! ## symmetry -/
 
@@ -355,6 +362,8 @@ theorem veq_symm : ∀ x y : Val, cmp x = true → cmp y = true → veq x y = ve
   · intro v _ y h; simp [cmp] at h
   · intro t y _ _; cases y <;> simp [veq]
     exact tyEq_symm _ _
+  · intro n y _ _; cases y <;> simp [veq, beq_swap (tsSecs n)]
+  · intro a b y _ _; cases y <;> simp [veq, beq_swap a, beq_swap b]
 
 /-! ## transitivity -/
 
@@ -433,5 +442,11 @@ theorem veq_trans : ∀ x y z : Val, cmp x = true → cmp y = true → veq x y =
   · intro t y z _ _; cases y <;> simp [veq]
     intro h1; cases z <;> simp [veq]
     exact tyEq_trans _ _ _ h1
+  · intro n y z _ _; cases y <;> simp [veq]
+    intro h1; cases z <;> simp [veq]
+    exact fun h2 => h1.trans h2
+  · intro a b y z _ _; cases y <;> simp [veq]
+    intro h1 h2; cases z <;> simp [veq]
+    exact fun h3 h4 => ⟨h1.trans h3, h2.trans h4⟩
 
 end Pcore.ValueEq
